@@ -49,6 +49,27 @@ def run(ctx: RuleContext):
     from ._flags import run_flag_typestate
 
     ctx.reuse("C01.7", run_flag_typestate, ctx, "C01.7", only_attr_of=lambda fl: not fl.guarded_setters and not fl.raising_getters)
+    # C01.9: "under the axis sizes already bound in that context": the sizes a *rejected* array check bound on the way must be gone again,
+    # or the next check in the context is decided under bindings no accepted value ever made (C04's snapshot / restore clauses at the
+    # array-check site: an optimisation that skips the snapshot for annotations that "bind nothing" is wrong for nested annotations)
+    ctx.reuse("C01.9", _array_rollback, ctx)
+    # C01.10: "its dtype is in the category": the comparison of the dtype name with the annotation's entries (C03.3: names by equality,
+    # regexes by match, decided from the annotation's own dtypes)
+    from .c03 import check_comparison
+
+    ctx.reuse("C01.10", check_comparison, ctx)
+
+
+def _array_rollback(ctx):
+    from . import c04
+    from ..roles import roles_for
+
+    r = roles_for(ctx.model)
+    sites = [s_ for s_ in c04.find_sites(ctx, r) if s_.fn.module.short == "_array_types"]
+    for s_ in sites:
+        c04.check_site(ctx, r, s_)
+    ctx.counters["array_rollback_sites"] = len(sites)
+    ctx.floor("C01.9", "array_rollback_sites", 1)
 
 
 def _kind_of(e):
